@@ -470,6 +470,18 @@ Model generate(sim::Rng& rng, const GenOptions& opt) {
     } else if (o.constant != 0) {
       o.has_nl = false;   // constant-only nonlinear part is written as n<const>
     }
+    if (opt.tag_objectives && rng.chance(0.14)) {
+      // an objective without content: AMPL's dummy "minimize Feas: 0;", or one whose G term and O expression cancel
+      // (it still is the k-th objective of the file, and the solver is given an objective with nothing in it)
+      o.lin.clear(); o.tags.clear(); o.constant = 0; o.has_nl = false; o.nl = Expr();
+      if (has_nl && !obj_nl_vars.empty() && rng.chance(0.35)) {
+        int j = obj_nl_vars[rng.below(obj_nl_vars.size())];
+        double cf = (double)rng.range(2, 9);
+        add_lin(o.lin, j, cf);
+        o.has_nl = true; o.nl = Expr::Op(2, {Expr::Num(-cf), Expr::Var(j)});
+        o.cancels = true;
+      }
+    }
     m.objs.push_back(o);
   }
 
